@@ -2,9 +2,9 @@
    Statements only; proofs in proofs/AgendaProofs.v, Agenda2Proofs.v, PrefixChart.v. *)
 From Coq Require Import List Arith.
 From GV.lib Require Import Semiring BigSum.
-From GV.model Require Import Cfg Agenda Agenda2 Prefix.
+From GV.model Require Import Cfg Agenda Agenda2 Prefix Expect.
 From GV.gen Require Import Gen_Exprs.
-From GV.proofs Require Import CfgTrees AgendaProofs Agenda2Proofs PrefixChart.
+From GV.proofs Require Import CfgTrees AgendaProofs Agenda2Proofs PrefixChart ExpectProofs.
 Import ListNotations.
 
 (* Kleene iteration from zero (naive_bottom_up / _bottom_up_step) is the tree sum: after h steps
@@ -48,3 +48,18 @@ Theorem C08_agenda_fixpoint : forall (S : SR) (G : grammar S) (terminals : list 
   (forall X, old (N X) = rhs_val G old X).
 Proof. intros; eapply agenda_fixpoint; eassumption. Qed.
 Print Assumptions C08_agenda_fixpoint.
+
+(* The expectation semiring <p, r> (Expectation in semiring.py) is a commutative semiring over any
+   commutative semiring, so every theorem above applies to it; and under the lifting used by
+   CFG.expected_length (rule weight w becomes <w, w * number of terminals in the body>) every derivation
+   tree t gets the weight <weight(t), weight(t) * |yield(t)|>: the second component of the total weight
+   is the weight-weighted total string length. *)
+Theorem C08_expectation_semiring : forall (S : SR),
+  Ring_theory.semi_ring_theory (@e0 S) (@e1 S) (@eadd S) (@emul S) (@eq (S * S)).
+Proof. exact exp_srt. Qed.
+Print Assumptions C08_expectation_semiring.
+
+Theorem C08_expectation_tree : forall (S : SR) (G : grammar S) (t : tree S) (X : nat), twf S G (N X) t ->
+  tweight (tlift S t) = (tweight t, smul (tweight t) (nat_s (length (tyield t)))).
+Proof. intros S G t X H. exact (expectation_tree_weight S G t X H). Qed.
+Print Assumptions C08_expectation_tree.
